@@ -253,3 +253,392 @@ Section WfExprs.
     | EListComp el v _ val _ | ESetComp el v _ val _ => WfExpr el /\ WfIdent X v /\ WfExpr val
     end.
 End WfExprs.
+
+(* ------------------------------------------------------------------ variables, attributes, conditions *)
+Definition var_expr (v : variable) : expr :=
+  match v with VarU n l => EUnscoped n l | VarS sc n l => EScoped sc n l end.
+Definition vloc (L : layout) (p : loc) (v : variable) : variable :=
+  match expr_as_variable (rloc L p (var_expr v)) with Some v' => v' | None => v end.
+
+(* an attribute `name = value`; `name` alone stands for `name = #true` (chosen by the layout flag) *)
+Definition attr_bare (L : layout) (a : attr) : bool :=
+  match a with Attr _ ETrue => l_flag L [] | _ => false end.
+Definition attr_text (L : layout) (a : attr) : list N :=
+  match a with
+  | Attr n v => if attr_bare L a then n else n ++ G L 0 ++ [61] ++ G L 1 ++ rtext (sub L 2) v
+  end.
+Definition attr_loc (L : layout) (p : loc) (a : attr) : attr :=
+  match a with
+  | Attr n v => if attr_bare L a then Attr n ETrue
+                else Attr n (rloc (sub L 2) (pos_after p (n ++ G L 0 ++ [61] ++ G L 1)) v)
+  end.
+Definition attr_ends_word (L : layout) (a : attr) : bool :=
+  match a with Attr _ v => if attr_bare L a then true else ends_word v end.
+(* a_0 gap , gap a_1 ... : component 3i = attribute i, gap 3i+1 follows it, gap 3i+2 follows its comma *)
+Fixpoint attrs_text (L : layout) (i : nat) (l : list attr) : list N :=
+  match l with
+  | [] => []
+  | a :: l' => attr_text (sub L (3 * i)) a ++
+               match l' with [] => [] | _ :: _ => G L (3 * i + 1) ++ [44] ++ G L (3 * i + 2) ++ attrs_text L (S i) l' end
+  end.
+Fixpoint attrs_loc (L : layout) (i : nat) (p : loc) (l : list attr) : list attr :=
+  match l with
+  | [] => []
+  | a :: l' => attr_loc (sub L (3 * i)) p a ::
+               attrs_loc L (S i) (pos_after p (attr_text (sub L (3 * i)) a ++ G L (3 * i + 1) ++ [44] ++ G L (3 * i + 2))) l'
+  end.
+Fixpoint attrs_ends_word (L : layout) (i : nat) (l : list attr) : bool :=
+  match l with
+  | [] => false
+  | a :: l' => match l' with [] => attr_ends_word (sub L (3 * i)) a | _ :: _ => attrs_ends_word L (S i) l' end
+  end.
+
+Definition cond_expr (c : cond) : expr := match c with CSome e _ | CNone e _ | CBool e _ => e end.
+Definition cond_text (L : layout) (c : cond) : list N :=
+  match c with
+  | CSome e _ => t_some ++ Gs L 0 true (starts_word e) ++ rtext (sub L 1) e
+  | CNone e _ => t_none ++ Gs L 0 true (starts_word e) ++ rtext (sub L 1) e
+  | CBool e _ => rtext (sub L 1) e
+  end.
+Definition cond_loc (L : layout) (p : loc) (c : cond) : cond :=
+  match c with
+  | CSome e _ => CSome (rloc (sub L 1) (pos_after p (t_some ++ Gs L 0 true (starts_word e))) e) p
+  | CNone e _ => CNone (rloc (sub L 1) (pos_after p (t_none ++ Gs L 0 true (starts_word e))) e) p
+  | CBool e _ => CBool (rloc (sub L 1) p e) p
+  end.
+(* c_0 gap , gap c_1 gap ... : every condition is followed by its gap (3i+1); gap 3i+2 follows the comma *)
+Fixpoint conds_text (L : layout) (i : nat) (l : list cond) : list N :=
+  match l with
+  | [] => []
+  | c :: l' => cond_text (sub L (3 * i)) c ++ G L (3 * i + 1) ++
+               match l' with [] => [] | _ :: _ => [44] ++ G L (3 * i + 2) ++ conds_text L (S i) l' end
+  end.
+Fixpoint conds_loc (L : layout) (i : nat) (p : loc) (l : list cond) : list cond :=
+  match l with
+  | [] => []
+  | c :: l' => cond_loc (sub L (3 * i)) p c ::
+               conds_loc L (S i) (pos_after p (cond_text (sub L (3 * i)) c ++ G L (3 * i + 1) ++ [44] ++ G L (3 * i + 2))) l'
+  end.
+
+(* the identifier an expression begins with, if it begins with one *)
+Fixpoint head_ident (e : expr) : option ident :=
+  match e with EUnscoped n _ => Some n | EScoped sc _ _ => head_ident sc | _ => None end.
+
+Section WfAttrs.
+  Variable X : ext.
+  Definition WfAttr (a : attr) : Prop := match a with Attr n v => WfIdent X n /\ WfExpr X v end.
+  (* a plain condition must not begin with the words `some` / `none` *)
+  Definition WfCond (c : cond) : Prop :=
+    WfExpr X (cond_expr c) /\
+    match c with
+    | CBool e _ => match head_ident e with Some n => n <> t_some /\ n <> t_none | None => True end
+    | _ => True
+    end.
+End WfAttrs.
+
+(* ------------------------------------------------------------------ statements *)
+Definition conds_starts_word (c : list cond) : bool :=
+  match c with CBool e _ :: _ => starts_word e | _ :: _ => true | [] => false end.
+
+Fixpoint print_text (L : layout) (i : nat) (vs : list expr) : list N :=
+  match vs with
+  | [] => []
+  | v :: vs' => rtext (sub L (3 * i)) v ++
+                match vs' with [] => [] | _ :: _ => G L (3 * i + 1) ++ [44] ++ G L (3 * i + 2) ++ print_text L (S i) vs' end
+  end.
+Fixpoint print_loc (L : layout) (i : nat) (p : loc) (vs : list expr) : list expr :=
+  match vs with
+  | [] => []
+  | v :: vs' => rloc (sub L (3 * i)) p v ::
+                print_loc L (S i) (pos_after p (rtext (sub L (3 * i)) v ++ G L (3 * i + 1) ++ [44] ++ G L (3 * i + 2))) vs'
+  end.
+
+(* does the written statement end with an identifier character? (blocks end with `}`) *)
+Definition stmt_ends_word (L : layout) (st : stmt) : bool :=
+  match st with
+  | SLet _ e _ | SVar _ e _ | SSet _ e _ => ends_word e
+  | SNode _ _ _ => true
+  | SEdge _ b _ => ends_word b
+  | SAttrNode _ attrs _ | SAttrEdge _ _ attrs _ => attrs_ends_word (sub L 5) 0 attrs
+  | SPrint vs _ => ends_word (last vs EFalse)
+  | SScan _ _ _ | SIf _ _ | SFor _ _ _ _ _ => false
+  end.
+
+Section StmtRender.
+  Variable tbl : list str.             (* the regex of scan arm number i *)
+  Definition pat (i : N) : str := nth (N.to_nat i) tbl [].
+
+  Definition assign_text (L : layout) (kw : str) (v : variable) (e : expr) : list N :=
+    kw ++ Gs L 0 true (starts_word (var_expr v)) ++ rtext (sub L 1) (var_expr v) ++ G L 2 ++ [61] ++ G L 3
+    ++ rtext (sub L 4) e.
+
+  Fixpoint stext (L : layout) (st : stmt) {struct st} : list N :=
+    let stmts := fix stmts (L : layout) (i : nat) (l : list stmt) {struct l} : list N :=
+      match l with
+      | [] => []
+      | st' :: l' => stext (sub L (2 * i)) st' ++
+                     Gs L (2 * i + 1) (stmt_ends_word (sub L (2 * i)) st') (match l' with [] => false | _ :: _ => true end)
+                     ++ stmts L (S i) l'
+      end in
+    let block := fun (L : layout) (l : list stmt) => [123] ++ G L 0 ++ stmts (sub L 1) 0%nat l ++ [125] in
+    match st with
+    | SLet v e _ => assign_text L t_let v e
+    | SVar v e _ => assign_text L t_var v e
+    | SSet v e _ => assign_text L t_set v e
+    | SNode v _ _ => t_node ++ Gs L 0 true (starts_word (var_expr v)) ++ rtext (sub L 1) (var_expr v)
+    | SEdge a b _ =>
+        t_edge ++ Gs L 0 true (starts_word a) ++ rtext (sub L 1) a ++ Gs L 2 (ends_word a) true ++ t_arrow
+        ++ G L 3 ++ rtext (sub L 4) b
+    | SAttrNode n attrs _ =>
+        t_attr ++ G L 0 ++ [40] ++ G L 1 ++ rtext (sub L 2) n ++ G L 3 ++ [41] ++ G L 4 ++ attrs_text (sub L 5) 0 attrs
+    | SAttrEdge a b attrs _ =>
+        t_attr ++ G L 0 ++ [40] ++ G L 1 ++ rtext (sub L 2) a ++ Gs L 3 (ends_word a) true ++ t_arrow ++ G L 6
+        ++ rtext (sub L 7) b ++ G L 8 ++ [41] ++ G L 4 ++ attrs_text (sub L 5) 0 attrs
+    | SPrint vs _ => t_print ++ Gs L 0 true (next_starts_word vs) ++ print_text (sub L 1) 0 vs
+    | SScan val arms _ =>
+        t_scan ++ Gs L 0 true (starts_word val) ++ rtext (sub L 1) val ++ G L 2 ++ [123] ++ G L 3
+        ++ (fix arms_t (L : layout) (i : nat) (a : list (N * list stmt * loc)) {struct a} : list N :=
+              match a with
+              | [] => []
+              | (idx, body, _) :: a' =>
+                  render_string (l_esc L [(3 * i)%nat]) (pat idx) ++ G L (3 * i + 1) ++ block (sub L (3 * i)) body
+                  ++ G L (3 * i + 2) ++ arms_t L (S i) a'
+              end) (sub L 4) 0%nat arms
+        ++ [125]
+    | SIf arms _ =>
+        match arms with
+        | [] => t_if
+        | (c0, b0, _) :: rest =>
+            t_if ++ Gs L 0 true (conds_starts_word c0) ++ conds_text (sub L 1) 0 c0 ++ block (sub L 2) b0
+            ++ (fix rest_t (L : layout) (i : nat) (a : list (list cond * list stmt * loc)) {struct a} : list N :=
+                  match a with
+                  | [] => []
+                  | (c, b, _) :: a' =>
+                      G L (4 * i + 1)
+                      ++ match c with
+                         | [] => t_else ++ G L (4 * i + 2)
+                         | _ :: _ => t_elif ++ Gs L (4 * i + 2) true (conds_starts_word c) ++ conds_text (sub L (4 * i + 3)) 0 c
+                         end
+                      ++ block (sub L (4 * i)) b ++ rest_t L (S i) a'
+                  end) (sub L 3) 0%nat rest
+        end
+    | SFor v _ val body _ =>
+        t_for ++ Gs L 0 true true ++ v ++ Gs L 1 true true ++ t_in ++ Gs L 2 true (starts_word val)
+        ++ rtext (sub L 3) val ++ G L 4 ++ block (sub L 5) body
+    end.
+
+  (* the same lists as top-level functions (convertible with the local ones above) *)
+  Fixpoint stmts_text (L : layout) (i : nat) (l : list stmt) : list N :=
+    match l with
+    | [] => []
+    | st' :: l' => stext (sub L (2 * i)) st' ++
+                   Gs L (2 * i + 1) (stmt_ends_word (sub L (2 * i)) st') (match l' with [] => false | _ :: _ => true end)
+                   ++ stmts_text L (S i) l'
+    end.
+  Definition block_text (L : layout) (l : list stmt) : list N := [123] ++ G L 0 ++ stmts_text (sub L 1) 0 l ++ [125].
+  Fixpoint arms_text (L : layout) (i : nat) (a : list (N * list stmt * loc)) : list N :=
+    match a with
+    | [] => []
+    | (idx, body, _) :: a' =>
+        render_string (l_esc L [(3 * i)%nat]) (pat idx) ++ G L (3 * i + 1) ++ block_text (sub L (3 * i)) body
+        ++ G L (3 * i + 2) ++ arms_text L (S i) a'
+    end.
+  Fixpoint ifrest_text (L : layout) (i : nat) (a : list (list cond * list stmt * loc)) : list N :=
+    match a with
+    | [] => []
+    | (c, b, _) :: a' =>
+        G L (4 * i + 1)
+        ++ match c with
+           | [] => t_else ++ G L (4 * i + 2)
+           | _ :: _ => t_elif ++ Gs L (4 * i + 2) true (conds_starts_word c) ++ conds_text (sub L (4 * i + 3)) 0 c
+           end
+        ++ block_text (sub L (4 * i)) b ++ ifrest_text L (S i) a'
+    end.
+
+  (* the regexes of the scan arms of a statement, in order of appearance *)
+  Fixpoint stmt_pats (st : stmt) {struct st} : list str :=
+    let stmts := fix stmts (l : list stmt) : list str :=
+      match l with [] => [] | st' :: l' => stmt_pats st' ++ stmts l' end in
+    match st with
+    | SScan _ arms _ =>
+        (fix go (a : list (N * list stmt * loc)) : list str :=
+           match a with [] => [] | (idx, body, _) :: a' => pat idx :: stmts body ++ go a' end) arms
+    | SIf arms _ =>
+        (fix go (a : list (list cond * list stmt * loc)) : list str :=
+           match a with [] => [] | (_, body, _) :: a' => stmts body ++ go a' end) arms
+    | SFor _ _ _ body _ => stmts body
+    | _ => []
+    end.
+  Fixpoint stmts_pats (l : list stmt) : list str :=
+    match l with [] => [] | st' :: l' => stmt_pats st' ++ stmts_pats l' end.
+  Fixpoint arms_pats (a : list (N * list stmt * loc)) : list str :=
+    match a with [] => [] | (idx, body, _) :: a' => pat idx :: stmts_pats body ++ arms_pats a' end.
+  Fixpoint ifarms_pats (a : list (list cond * list stmt * loc)) : list str :=
+    match a with [] => [] | (_, body, _) :: a' => stmts_pats body ++ ifarms_pats a' end.
+
+  (* ---- the located statement: every location is the position of the construct's first character;
+     scan arms are numbered in order of appearance, starting at k (the number of arms seen before) ---- *)
+  Definition assign_locs (L : layout) (p : loc) (kw : str) (v : variable) (e : expr) : variable * expr :=
+    let p1 := pos_after p (kw ++ Gs L 0 true (starts_word (var_expr v))) in
+    (vloc (sub L 1) p1 v,
+     rloc (sub L 4) (pos_after p1 (rtext (sub L 1) (var_expr v) ++ G L 2 ++ [61] ++ G L 3)) e).
+
+  Fixpoint sloc (L : layout) (p : loc) (k : nat) (st : stmt) {struct st} : stmt :=
+    let stmts := fix stmts (L : layout) (i : nat) (p : loc) (k : nat) (l : list stmt) {struct l} : list stmt :=
+      match l with
+      | [] => []
+      | st' :: l' =>
+          sloc (sub L (2 * i)) p k st' ::
+          stmts L (S i)
+            (pos_after p (stext (sub L (2 * i)) st' ++
+               Gs L (2 * i + 1) (stmt_ends_word (sub L (2 * i)) st') (match l' with [] => false | _ :: _ => true end)))
+            (k + length (stmt_pats st'))%nat l'
+      end in
+    let block := fun (L : layout) (p : loc) (k : nat) (l : list stmt) =>
+      stmts (sub L 1) 0%nat (pos_after p ([123] ++ G L 0)) k l in
+    match st with
+    | SLet v e _ => let ve := assign_locs L p t_let v e in SLet (fst ve) (snd ve) p
+    | SVar v e _ => let ve := assign_locs L p t_var v e in SVar (fst ve) (snd ve) p
+    | SSet v e _ => let ve := assign_locs L p t_set v e in SSet (fst ve) (snd ve) p
+    | SNode v _ _ => SNode (vloc (sub L 1) (pos_after p (t_node ++ Gs L 0 true (starts_word (var_expr v)))) v) [] p
+    | SEdge a b _ =>
+        let p1 := pos_after p (t_edge ++ Gs L 0 true (starts_word a)) in
+        SEdge (rloc (sub L 1) p1 a)
+              (rloc (sub L 4) (pos_after p1 (rtext (sub L 1) a ++ Gs L 2 (ends_word a) true ++ t_arrow ++ G L 3)) b) p
+    | SAttrNode n attrs _ =>
+        let p1 := pos_after p (t_attr ++ G L 0 ++ [40] ++ G L 1) in
+        SAttrNode (rloc (sub L 2) p1 n)
+                  (attrs_loc (sub L 5) 0 (pos_after p1 (rtext (sub L 2) n ++ G L 3 ++ [41] ++ G L 4)) attrs) p
+    | SAttrEdge a b attrs _ =>
+        let p1 := pos_after p (t_attr ++ G L 0 ++ [40] ++ G L 1) in
+        let p2 := pos_after p1 (rtext (sub L 2) a ++ Gs L 3 (ends_word a) true ++ t_arrow ++ G L 6) in
+        SAttrEdge (rloc (sub L 2) p1 a) (rloc (sub L 7) p2 b)
+                  (attrs_loc (sub L 5) 0 (pos_after p2 (rtext (sub L 7) b ++ G L 8 ++ [41] ++ G L 4)) attrs) p
+    | SPrint vs _ =>
+        SPrint (print_loc (sub L 1) 0 (pos_after p (t_print ++ Gs L 0 true (next_starts_word vs))) vs) p
+    | SScan val arms _ =>
+        let p1 := pos_after p (t_scan ++ Gs L 0 true (starts_word val)) in
+        let p2 := pos_after p1 (rtext (sub L 1) val ++ G L 2 ++ [123] ++ G L 3) in
+        SScan (rloc (sub L 1) p1 val)
+          ((fix arms_l (L : layout) (i : nat) (q : loc) (k : nat) (a : list (N * list stmt * loc)) {struct a}
+               : list (N * list stmt * loc) :=
+              match a with
+              | [] => []
+              | (idx, body, _) :: a' =>
+                  let s_txt := render_string (l_esc L [(3 * i)%nat]) (pat idx) ++ G L (3 * i + 1) in
+                  (N.of_nat k, block (sub L (3 * i)) (pos_after q s_txt) (S k) body, p) ::
+                  arms_l L (S i) (pos_after q (s_txt ++ block_text (sub L (3 * i)) body ++ G L (3 * i + 2)))
+                         (S k + length (stmts_pats body))%nat a'
+              end) (sub L 4) 0%nat p2 k arms) p
+    | SIf arms _ =>
+        match arms with
+        | [] => SIf [] p
+        | (c0, b0, _) :: rest =>
+            let p1 := pos_after p (t_if ++ Gs L 0 true (conds_starts_word c0)) in
+            let p2 := pos_after p1 (conds_text (sub L 1) 0 c0) in
+            SIf ((conds_loc (sub L 1) 0 p1 c0, block (sub L 2) p2 k b0, p) ::
+                 (fix rest_l (L : layout) (i : nat) (q : loc) (k : nat) (a : list (list cond * list stmt * loc)) {struct a}
+                      : list (list cond * list stmt * loc) :=
+                    match a with
+                    | [] => []
+                    | (c, b, _) :: a' =>
+                        let q1 := pos_after q (G L (4 * i + 1)) in
+                        match c with
+                        | [] =>
+                            let q2 := pos_after q1 (t_else ++ G L (4 * i + 2)) in
+                            ([], block (sub L (4 * i)) q2 k b, q1) ::
+                            rest_l L (S i) (pos_after q2 (block_text (sub L (4 * i)) b)) (k + length (stmts_pats b))%nat a'
+                        | _ :: _ =>
+                            let q2 := pos_after q1 (t_elif ++ Gs L (4 * i + 2) true (conds_starts_word c)) in
+                            let q3 := pos_after q2 (conds_text (sub L (4 * i + 3)) 0 c) in
+                            (conds_loc (sub L (4 * i + 3)) 0 q2 c, block (sub L (4 * i)) q3 k b, q1) ::
+                            rest_l L (S i) (pos_after q3 (block_text (sub L (4 * i)) b)) (k + length (stmts_pats b))%nat a'
+                        end
+                    end) (sub L 3) 0%nat (pos_after p2 (block_text (sub L 2) b0)) (k + length (stmts_pats b0))%nat rest) p
+        end
+    | SFor v _ val body _ =>
+        let pv := pos_after p (t_for ++ Gs L 0 true true) in
+        let p2 := pos_after pv (v ++ Gs L 1 true true ++ t_in ++ Gs L 2 true (starts_word val)) in
+        let p3 := pos_after p2 (rtext (sub L 3) val ++ G L 4) in
+        SFor v pv (rloc (sub L 3) p2 val) (block (sub L 5) p3 k body) p
+    end.
+
+  Fixpoint stmts_loc (L : layout) (i : nat) (p : loc) (k : nat) (l : list stmt) : list stmt :=
+    match l with
+    | [] => []
+    | st' :: l' =>
+        sloc (sub L (2 * i)) p k st' ::
+        stmts_loc L (S i)
+          (pos_after p (stext (sub L (2 * i)) st' ++
+             Gs L (2 * i + 1) (stmt_ends_word (sub L (2 * i)) st') (match l' with [] => false | _ :: _ => true end)))
+          (k + length (stmt_pats st'))%nat l'
+    end.
+  Definition block_loc (L : layout) (p : loc) (k : nat) (l : list stmt) : list stmt :=
+    stmts_loc (sub L 1) 0 (pos_after p ([123] ++ G L 0)) k l.
+  (* arms of `scan` (all carry the location kl of the `scan` keyword) and the arms after the first of `if` *)
+  Section ArmsLoc.
+  Variable kl : loc.
+  Fixpoint arms_loc (L : layout) (i : nat) (q : loc) (k : nat) (a : list (N * list stmt * loc))
+      : list (N * list stmt * loc) :=
+    match a with
+    | [] => []
+    | (idx, body, _) :: a' =>
+        let s_txt := render_string (l_esc L [(3 * i)%nat]) (pat idx) ++ G L (3 * i + 1) in
+        (N.of_nat k, block_loc (sub L (3 * i)) (pos_after q s_txt) (S k) body, kl) ::
+        arms_loc L (S i) (pos_after q (s_txt ++ block_text (sub L (3 * i)) body ++ G L (3 * i + 2)))
+                 (S k + length (stmts_pats body))%nat a'
+    end.
+  End ArmsLoc.
+  Fixpoint ifrest_loc (L : layout) (i : nat) (q : loc) (k : nat) (a : list (list cond * list stmt * loc))
+      : list (list cond * list stmt * loc) :=
+    match a with
+    | [] => []
+    | (c, b, _) :: a' =>
+        let q1 := pos_after q (G L (4 * i + 1)) in
+        match c with
+        | [] =>
+            let q2 := pos_after q1 (t_else ++ G L (4 * i + 2)) in
+            ([], block_loc (sub L (4 * i)) q2 k b, q1) ::
+            ifrest_loc L (S i) (pos_after q2 (block_text (sub L (4 * i)) b)) (k + length (stmts_pats b))%nat a'
+        | _ :: _ =>
+            let q2 := pos_after q1 (t_elif ++ Gs L (4 * i + 2) true (conds_starts_word c)) in
+            let q3 := pos_after q2 (conds_text (sub L (4 * i + 3)) 0 c) in
+            (conds_loc (sub L (4 * i + 3)) 0 q2 c, block_loc (sub L (4 * i)) q3 k b, q1) ::
+            ifrest_loc L (S i) (pos_after q3 (block_text (sub L (4 * i)) b)) (k + length (stmts_pats b))%nat a'
+        end
+    end.
+End StmtRender.
+
+Section WfStmts.
+  Variable X : ext.
+  Variable tbl : list str.
+  Definition WfVar (v : variable) : Prop := WfExpr X (var_expr v).
+  (* the arms after the first: `elif` arms have conditions; an arm without conditions is `else`, the last *)
+  Fixpoint WfIfRest (a : list (list cond * list stmt * loc)) : Prop :=
+    match a with
+    | [] => True
+    | (c, _, _) :: a' => (c = [] -> a' = []) /\ Forall (WfCond X) c /\ WfIfRest a'
+    end.
+  Fixpoint WfStmt (st : stmt) {struct st} : Prop :=
+    let all := fix all (l : list stmt) : Prop := match l with [] => True | s :: l' => WfStmt s /\ all l' end in
+    match st with
+    | SLet v e _ | SVar v e _ | SSet v e _ => WfVar v /\ WfExpr X e
+    | SNode v _ _ => WfVar v
+    | SEdge a b _ => WfExpr X a /\ WfExpr X b
+    | SAttrNode n attrs _ => WfExpr X n /\ attrs <> [] /\ Forall (WfAttr X) attrs
+    | SAttrEdge a b attrs _ => WfExpr X a /\ WfExpr X b /\ attrs <> [] /\ Forall (WfAttr X) attrs
+    | SPrint vs _ => vs <> [] /\ Forall (WfExpr X) vs
+    | SScan val arms _ =>
+        WfExpr X val /\
+        (fix go (a : list (N * list stmt * loc)) : Prop :=
+           match a with [] => True | (idx, body, _) :: a' => x_regex X (pat tbl idx) = Some true /\ all body /\ go a' end) arms
+    | SIf arms _ =>
+        match arms with
+        | [] => False
+        | (c0, b0, _) :: rest => c0 <> [] /\ Forall (WfCond X) c0 /\ WfIfRest rest /\
+            (fix go (a : list (list cond * list stmt * loc)) : Prop :=
+               match a with [] => True | (_, body, _) :: a' => all body /\ go a' end) arms
+        end
+    | SFor v _ val body _ => WfIdent X v /\ WfExpr X val /\ all body
+    end.
+End WfStmts.
